@@ -275,6 +275,9 @@ class Aggregation:
             self.finalize,
             self.fill_value,
             self.dtype,
+            # set per call by _initialize_aggregation; they change the values computed by the graph
+            self.finalize_kwargs,
+            self.min_count,
         )
 
     def __repr__(self) -> str:
